@@ -19,7 +19,7 @@ RULE = (
     "*_like, scalar promotion, searchsorted, clip, map_blocks with block ids, arg-reductions, broadcast_to, pad, diff with "
     "prepend/append, linspace/arange/eye inputs, random) are built and computed under every resource configuration: V0 global default "
     "config (no Spec passed anywhere), V1 explicit Spec equal to the default, V2 explicit work_dir, V3 intermediate_store = MemoryStore "
-    "and = LocalStore, V4 zarr_compressor None / explicit Blosc dict, V5 different reserved_mem, V6 an executor in the Spec, V7 larger "
+    "and = LocalStore, V4 zarr_compressor None / explicit Blosc dict, V5 different reserved_mem, V6 an executor in the Spec, V8 every input under its own Spec object with equal settings (executor given by name / as an instance / by name with empty options), V7 larger "
     "allowed_mem. Oracle (metamorphic): every variant has the same acceptance class (accepted / declined-at-build / declined-at-plan / "
     "failed-at-execute, with the same exception type) as V0, and accepted variants return identical values (NaN-aware exact "
     "equality) which also agree with NumPy. Non-trivial = the program contains a helper-array-creating operation or input; "
@@ -30,7 +30,7 @@ ASSUMPTIONS = [
 ]
 
 VARIANTS = ["V0-default-config", "V1-explicit-equal", "V2-work_dir", "V3-memorystore", "V3-localstore", "V4-compressor-none", "V4-compressor-blosc",
-            "V5-reserved_mem", "V6-executor-in-spec", "V7-larger-allowed_mem"]
+            "V5-reserved_mem", "V6-executor-in-spec", "V7-larger-allowed_mem", "V8-equal-specs-per-input"]
 HELPER_OPS = {n for n, o in __import__("vp.ir", fromlist=["OPS"]).OPS.items() if "helper-array" in o.tags} | {"searchsorted", "diff", "pad", "tril", "triu", "map_blocks"}
 
 
@@ -82,6 +82,19 @@ def make_spec(variant, scratch):
 def run_variant(prog, variant, scratch, optimize):
     from vp import harness as H
 
+    if variant == "V8-equal-specs-per-input":
+        # every input is built under its own Spec object; the Specs describe the same resources, the executor being written down
+        # in different ways (by name, as an instance, by name with empty options)
+        import cubed
+        from cubed.runtime.create import create_executor
+
+        base = dict(work_dir=os.path.join(scratch, "wd9"), allowed_mem="2GB", reserved_mem="100MB")
+        specs = [cubed.Spec(executor_name="single-threaded", **base), cubed.Spec(executor=create_executor("single-threaded"), **base),
+                 cubed.Spec(executor_name="single-threaded", executor_options={}, **base)]
+        ctx = P.BuildCtx()
+        ctx.input_specs = specs
+        rr = H.run_program(prog, specs[0], executor=H.make_executor("single-threaded"), optimize_graph=optimize, ctx=ctx)
+        return rr
     spec = make_spec(variant, scratch)
     ex = None if variant == "V6-executor-in-spec" else H.make_executor("single-threaded")
     rr = H.run_program(prog, spec, executor=ex, optimize_graph=optimize)
